@@ -123,6 +123,45 @@ func LalrK(r *rand.Rand) *PGrammar {
 		}
 		rule(s, rhs...)
 	}
+	if r.Intn(3) == 0 {
+		// a second, independent conflict with the same middle tokens but another common prefix and
+		// other tails: its lookahead automaton shares inner nodes with the first one
+		var pref2 []cfg.Sym
+		for tries := 0; tries < 10; tries++ {
+			pref2 = []cfg.Sym{rt()}
+			if pref2[0] != pref[0] {
+				break
+			}
+		}
+		if pref2[0] != pref[0] {
+			usedT := map[int]bool{}
+			for a := 0; a < nAlts; a++ {
+				head := nonterm(fmt.Sprintf("B%d", a))
+				rule(head, pref2...)
+				rhs := []cfg.Sym{nt(head)}
+				for _, m := range mid {
+					switch m.kind {
+					case 2:
+						rhs = append(rhs, newHelper())
+					case 3:
+						rhs = append(rhs, m.t, m.t2)
+					default:
+						rhs = append(rhs, m.t)
+					}
+				}
+				t := r.Intn(nTerms)
+				for tries := 0; usedT[t] && tries < 10; tries++ {
+					t = r.Intn(nTerms)
+				}
+				if usedT[t] {
+					continue
+				}
+				usedT[t] = true
+				rhs = append(rhs, terms[t])
+				rule(s, rhs...)
+			}
+		}
+	}
 	if r.Intn(3) == 0 && nAlts >= 2 {
 		// a second group of alternatives for the same heads with its own (possibly too long) middle:
 		// the same reduce/reduce conflict then has several next terminals with different depths
